@@ -29,6 +29,8 @@ class C05(CollProperty):
 
     def gen(self, seed):
         rng = random.Random(seed)
+        if rng.random() < 0.2:
+            return dict(sc=coll.gen_window_family(rng))           # stdlib::to_window: duration and resettable windows
         return dict(sc=self.build(rng, with_lazy=True))
 
     def run(self, case, fresh=False):
@@ -39,6 +41,11 @@ class C05(CollProperty):
             return pre
         log = oc.parse_run(res.events, 0)
         v, stats = oc.check_coherence(sc, log)
+        if sc.get("towins"):
+            v2, s2 = oc.check_windows(sc, log)
+            stats.update(s2)
+            stats["ticks_checked"] += s2["window_ticks_checked"]
+            v = v or v2
         stats["cycles"] = len(log["cycles"])
         stats["simulated_time_us"] = sc["window"][1]
         viol = dict(clause=v[0], detail=v[1]) if v else (dict(clause="known", detail=F6, known=F6) if stats.get("known_F6") else None)
